@@ -44,6 +44,8 @@ type c05Case struct {
 	// adversary removed from the attacked stream are sent to the accessory on it while the attacked stream is arriving
 	Peer  int    `json:"peer,omitempty"`
 	Neigh string `json:"neigh,omitempty"`
+	// Entry "decrypted-read": the caller reads through the connection's exported DecryptedRead instead of Read
+	Entry string `json:"entry,omitempty"`
 }
 
 var c05Peers = [][2]string{{"10.0.0.2:50001", "10.0.0.2:50002"}, {"[2001:db8::1]:50001", "[2001:db8::1]:50002"}, {"[fe80::1%eth0]:50001", "[fe80::1%eth0]:50002"}}
@@ -410,13 +412,18 @@ func c05Conn(c *fw.Ctx, cas c05Case) {
 		}
 	}
 	_ = nbConn
+	read := conn.Read
+	if cas.Entry == "decrypted-read" {
+		read = conn.DecryptedRead
+		kinds = "decrypted-read-" + kinds
+	}
 	var got []byte
 	var rerr error
 	afterErr := 0
 	if pn := guard(func() {
 		for i := 0; i < 64; i++ {
 			buf := make([]byte, 4096)
-			n, e := conn.Read(buf)
+			n, e := read(buf)
 			if rerr != nil {
 				afterErr += n // the caller insists after an error: nothing more may be released
 				if i > 70 || e != nil && n == 0 && afterErr == 0 && i > 3 {
@@ -628,6 +635,11 @@ func c05Run(c *fw.Ctx) {
 					}
 					if dir == "acc" && len(s.stream) < 2200 && (f.Kind != "flip" || f.A%8 == 3 || c.Thorough()) {
 						c05Conn(c, cas) // the same fault one level up, through hap.Connection.Read
+						if f.Kind != "flip" || f.A%64 == 3 || c.Thorough() {
+							x := cas
+							x.Entry = "decrypted-read" // … and through the connection's other exported read entry point
+							c05Conn(c, x)
+						}
 					}
 					if dir == "acc" && len(s.stream) < 2200 && f.Kind != "flip" && f.Kind != "truncate" && f.Kind != "insert-byte" && f.Kind != "drop-byte" {
 						// … and with an adversary connection from the same host next to it, for three address shapes
@@ -700,7 +712,7 @@ func init() {
 	fw.Register(&fw.Check{
 		ID:     "C05",
 		Level:  "fault_enumeration",
-		Rule:   "for 20 stream shapes (0–4 frames, message lengths around 1, 1023..1025, k·1024; frame counters starting at 0, 1, 300 and — preset through reflection — 2^32−1, 2^32, 2^32+5, 2^40, 2^63−1, 2^64−4) × both receiving directions × secrets: every single-bit flip of the whole ciphertext stream, truncation at every byte offset, every frame deletion, duplication at every position, every non-identity permutation, reflection of the receiver's own frames, same-index frames of a session with another secret, a frame the same sender sealed 2^32 counters earlier, forged frames (empty with an arbitrary tag — replacing a frame or inserted anywhere —, or arbitrary bytes of the original length), byte insertion/removal at frame edges; thorough adds all ordered pairs of faults from a reduced menu on the small shapes. Sender = reference framing, receiver = hc's real session (also while the receiving session encrypts outgoing messages between the reads that deliver the stream); for streams under 2200 bytes the same faults are also fed one level up through a real hap.Connection (released bytes, error, nothing released to a caller that keeps reading after the error). distinct_nontrivial = distinct (fault kinds, error reported?) classes among faults that changed at least one byte Frame-level faults are also run with an adversary connection of the same accessory next to the attacked one, from the same host and another port, for IPv4, IPv6 and link-local IPv6 (zone) peer addresses: opened after the attacked connection got its keys, or receiving the diverted original bytes while the altered stream arrives; an unaltered stream next to such a neighbour is delivered completely. Plus, in a subprocess built with a scheduling point before EVERY statement of hc's packages (textual insertion through go build -overlay): every interleaving with at most 1 (thorough 2) preemptions of pairs of operations on disjoint objects — and, where the property is about served requests, of pairs of handlers on two verified connections of one accessory touching different characteristics — each side must observe exactly what it observes when the two run one after the other (module-level mutable state is what makes them differ).",
+		Rule:   "for 20 stream shapes (0–4 frames, message lengths around 1, 1023..1025, k·1024; frame counters starting at 0, 1, 300 and — preset through reflection — 2^32−1, 2^32, 2^32+5, 2^40, 2^63−1, 2^64−4) × both receiving directions × secrets: every single-bit flip of the whole ciphertext stream, truncation at every byte offset, every frame deletion, duplication at every position, every non-identity permutation, reflection of the receiver's own frames, same-index frames of a session with another secret, a frame the same sender sealed 2^32 counters earlier, forged frames (empty with an arbitrary tag — replacing a frame or inserted anywhere —, or arbitrary bytes of the original length), byte insertion/removal at frame edges; thorough adds all ordered pairs of faults from a reduced menu on the small shapes. Sender = reference framing, receiver = hc's real session (also while the receiving session encrypts outgoing messages between the reads that deliver the stream); for streams under 2200 bytes the same faults are also fed one level up through a real hap.Connection (released bytes, error, nothing released to a caller that keeps reading after the error; through Read and through the exported DecryptedRead). distinct_nontrivial = distinct (fault kinds, error reported?) classes among faults that changed at least one byte Frame-level faults are also run with an adversary connection of the same accessory next to the attacked one, from the same host and another port, for IPv4, IPv6 and link-local IPv6 (zone) peer addresses: opened after the attacked connection got its keys, or receiving the diverted original bytes while the altered stream arrives; an unaltered stream next to such a neighbour is delivered completely. Plus, in a subprocess built with a scheduling point before EVERY statement of hc's packages (textual insertion through go build -overlay): every interleaving with at most 1 (thorough 2) preemptions of pairs of operations on disjoint objects — and, where the property is about served requests, of pairs of handlers on two verified connections of one accessory touching different characteristics — each side must observe exactly what it observes when the two run one after the other (module-level mutable state is what makes them differ).",
 		Run:    c05Run,
 		Budget: func(string) time.Duration { return 25 * time.Minute },
 		Replay: func(c *fw.Ctx, raw json.RawMessage) {
